@@ -493,10 +493,16 @@ where
                 }
             }
 
+            // Deduplicate on the address as it is going to be dialed, i.e. including the `/p2p`
+            // suffix appended below, so that `/a` and `/a/p2p/<peer>` are not dialed twice.
             let mut unique_addresses = HashSet::new();
             addresses_from_opts.retain(|addr| {
                 !self.listened_addrs.values().flatten().any(|a| a == addr)
-                    && unique_addresses.insert(addr.clone())
+                    && unique_addresses.insert(
+                        peer_id
+                            .map_or(Ok(addr.clone()), |p| addr.clone().with_p2p(p))
+                            .unwrap_or_else(|a| a),
+                    )
             });
 
             if addresses_from_opts.is_empty() {
